@@ -670,6 +670,41 @@ fn rust_resets(ctx: &mut Ctx) {
                         if dec_f[..fi.total_out() as usize] != data[..] {
                             return Err("round trip through the Rust wrappers differs".into());
                         }
+                        // a compressor reset with output still pending and a dictionary installed: both are forgotten
+                        c.exec();
+                        let mut b = zlib_rs::Deflate::new(level, hdr, wb);
+                        let _ = b.set_dictionary(&data[100..700]);
+                        let mut tiny = [0u8; 3];
+                        let _ = b.compress(&data[..cut], &mut tiny, zlib_rs::DeflateFlush::SyncFlush);
+                        b.reset();
+                        let mut out_b = vec![0u8; 8000];
+                        let rb = b.compress(&data, &mut out_b, zlib_rs::DeflateFlush::Finish);
+                        if rb != rf || b.total_out() != f.total_out() || out_b[..b.total_out() as usize] != out_f[..f.total_out() as usize] {
+                            return Err(format!("Deflate::reset after set_dictionary and a starved sync flush: {:?} / {} bytes vs fresh {:?} / {} bytes", rb, b.total_out(), rf, f.total_out()));
+                        }
+                        // a decoder created for the other wrapper, fed the stream (an error or not), then reset to this wrapper
+                        c.exec();
+                        let mut ib = zlib_rs::Inflate::new(!hdr, wb);
+                        let _ = ib.decompress(z, &mut scratch, zlib_rs::InflateFlush::NoFlush);
+                        ib.reset(hdr);
+                        let mut dec_b = vec![0u8; 4000];
+                        let r3 = ib.decompress(z, &mut dec_b, zlib_rs::InflateFlush::Finish);
+                        if r3 != r2 || ib.total_out() != fi.total_out() || ib.total_in() != fi.total_in() || dec_b[..ib.total_out() as usize] != dec_f[..fi.total_out() as usize] {
+                            return Err(format!("Inflate::new({}, {wb}) ; decompress ; reset({hdr}): {:?} vs a fresh Inflate::new({hdr}, 15) {:?}", !hdr, r3, r2));
+                        }
+                        // a decoder that has output in its window, reset to raw mode and given a stream whose first token
+                        // reaches back before the start: rejected like on a fresh decoder
+                        c.exec();
+                        let far = crate::refs::builder::build(&[crate::refs::builder::Plan::Fixed(vec![crate::refs::builder::Tok::Match(10, 50)])]);
+                        ia.reset(false);
+                        let mut o1 = [0u8; 64];
+                        let mut o2 = [0u8; 64];
+                        let q1 = ia.decompress(&far, &mut o1, zlib_rs::InflateFlush::Finish);
+                        let mut fr = zlib_rs::Inflate::new(false, 15);
+                        let q2 = fr.decompress(&far, &mut o2, zlib_rs::InflateFlush::Finish);
+                        if q1 != q2 || ia.total_out() != fr.total_out() || o1 != o2 {
+                            return Err(format!("after Inflate::reset(false) a back-reference before the start of the new stream gives {:?} ({} bytes out), a fresh decoder {:?} ({} bytes out)", q1, ia.total_out(), q2, fr.total_out()));
+                        }
                         c.outcome(hash_bytes(z));
                         c.validated();
                         Ok(())
